@@ -441,16 +441,22 @@ class Run:
         return mism
 
     def execute(self):
-        if os.environ.get("VERIF_NO_SELFCHECK") != "1":
+        rc = self._execute()
+        if os.environ.get("VERIF_NO_SELFCHECK") != "1" and rc != 1:
+            # differential validation of the encoder on this run's units.  It runs after the obligations so that it can
+            # never pre-empt a reproduced violation; a mismatch voids a run that would otherwise have passed.
             try:
                 if self.auto_selfcheck():
-                    print("INCONCLUSIVE property=%s: ENCODER-MISMATCH (the symbolic encoding disagrees with the native build)" % self.pid)
-                    self.write_evidence()
-                    return 2
+                    print("INCONCLUSIVE property=%s: ENCODER-MISMATCH (the symbolic encoding disagrees with the native build "
+                          "on a UB-free input; see the lines above)" % self.pid)
+                    rc = 2
             except (Unsupported, B.BuildError) as e:
                 print("INCONCLUSIVE property=%s: encoder self-check could not run: %s" % (self.pid, str(e)[:300]))
-                self.write_evidence()
-                return 2
+                rc = 2
+            self.write_evidence()
+        return rc
+
+    def _execute(self):
         workdir = os.path.join(B.BUILD, "%s_smt" % self.pid)
         os.makedirs(workdir, exist_ok=True)
         todo = list(self.obs)
